@@ -9,6 +9,11 @@ const (
 	RTrunc  = "trunc"  // deliver only the first Keep bytes of the record, then end the stream
 	RCutAt  = "cut"    // end the stream right before the record (on the record boundary)
 	RInject = "inject" // deliver Data (raw bytes) right before the record
+	// RRewrite re-encodes a ClientHello / ServerHello that fills the record so that it parses to the same
+	// fields but is not the same bytes: Off 0 appends an unknown, empty extension (adding the extensions
+	// block if there is none), Off 1 exchanges the first two extensions, Off 2 appends a second extensions-like
+	// tail of two zero bytes behind the message inside the record. Lengths are fixed up.
+	RRewrite = "rewrite"
 )
 
 // RFault addresses the N-th record (0-based) of content type Type in one
@@ -109,6 +114,14 @@ func (m *RecordMITM) Filter(b []byte) (out [][]byte, cut bool) {
 				return out, true
 			case RInject:
 				emit = append([][]byte{clone(f.Data)}, emit...)
+			case RRewrite:
+				if nr := rewriteHello(rec, f.Off); nr != nil {
+					rec = nr
+					emit = [][]byte{rec}
+				} else {
+					m.Fired[i] = false
+					info.Action += "(not applicable) "
+				}
 			}
 		}
 		m.Seen = append(m.Seen, info)
@@ -137,4 +150,94 @@ func (m *RecordMITM) AllFired() bool {
 		}
 	}
 	return true
+}
+
+// rewriteHello returns the record with its hello message re-encoded (see RRewrite), or nil when the record is
+// not exactly one ClientHello / ServerHello or the transformation does not apply.
+//
+//go:norace
+func rewriteHello(rec []byte, how int) []byte {
+	if len(rec) < 5+4+35 || rec[0] != 22 {
+		return nil
+	}
+	msg := rec[5:]
+	typ := msg[0]
+	mlen := int(msg[1])<<16 | int(msg[2])<<8 | int(msg[3])
+	if (typ != 1 && typ != 2) || mlen != len(msg)-4 {
+		return nil
+	}
+	body := msg[4:]
+	p := 2 + 32 // version, random
+	if p >= len(body) {
+		return nil
+	}
+	p += 1 + int(body[p]) // session id
+	if typ == 1 {
+		if p+2 > len(body) {
+			return nil
+		}
+		p += 2 + (int(body[p])<<8 | int(body[p+1])) // cipher suites
+		if p+1 > len(body) {
+			return nil
+		}
+		p += 1 + int(body[p]) // compression methods
+	} else {
+		p += 3 // suite, compression
+	}
+	if p > len(body) {
+		return nil
+	}
+	var head, exts []byte
+	for _, x := range body[:p] {
+		head = append(head, x)
+	}
+	hasBlock := p+2 <= len(body)
+	if hasBlock {
+		n := int(body[p])<<8 | int(body[p+1])
+		if p+2+n != len(body) {
+			return nil
+		}
+		for _, x := range body[p+2:] {
+			exts = append(exts, x)
+		}
+	} else if p != len(body) {
+		return nil
+	}
+	var tail []byte
+	switch how {
+	case 0:
+		exts = append(exts, 0xff, 0x77, 0, 0)
+	case 1:
+		// exchange the first two extensions
+		if len(exts) < 4 {
+			return nil
+		}
+		n0 := 4 + (int(exts[2])<<8 | int(exts[3]))
+		if n0+4 > len(exts) {
+			return nil
+		}
+		n1 := 4 + (int(exts[n0+2])<<8 | int(exts[n0+3]))
+		if n0+n1 > len(exts) {
+			return nil
+		}
+		var sw []byte
+		sw = append(sw, exts[n0:n0+n1]...)
+		sw = append(sw, exts[:n0]...)
+		sw = append(sw, exts[n0+n1:]...)
+		exts = sw
+	case 2:
+		if !hasBlock {
+			return nil
+		}
+		tail = []byte{0, 0}
+	default:
+		return nil
+	}
+	nb := head
+	nb = append(nb, byte(len(exts)>>8), byte(len(exts)))
+	nb = append(nb, exts...)
+	nb = append(nb, tail...)
+	out := []byte{rec[0], rec[1], rec[2], byte((len(nb) + 4) >> 8), byte(len(nb) + 4), typ, byte(len(nb) >> 16), byte(len(nb) >> 8), byte(len(nb))}
+	out = append(out, nb...)
+	return out
 }
